@@ -46,6 +46,16 @@ func modeToPB(m string) pb.ReplicationMode {
 	return 0
 }
 
+// normalizeMode maps every accepted spelling of a mode name ("dr_auto_sync",
+// "DR-AUTO-SYNC", ...) to the one the manager compares with. Unknown names
+// are kept as they are.
+func normalizeMode(m string) string {
+	if n := config.NormalizeReplicationMode(m); n != "" {
+		return n
+	}
+	return m
+}
+
 // FileReplicater is the interface that can save important data to all cluster
 // nodes.
 type FileReplicater interface {
@@ -82,6 +92,7 @@ type ModeManager struct {
 
 // NewReplicationModeManager creates the replicate mode manager.
 func NewReplicationModeManager(config config.ReplicationModeConfig, storage *core.Storage, cluster opt.Cluster, fileReplicater FileReplicater) (*ModeManager, error) {
+	config.ReplicationMode = normalizeMode(config.ReplicationMode)
 	m := &ModeManager{
 		initTime:              time.Now(),
 		config:                config,
@@ -104,6 +115,7 @@ func NewReplicationModeManager(config config.ReplicationModeConfig, storage *cor
 func (m *ModeManager) UpdateConfig(config config.ReplicationModeConfig) error {
 	m.Lock()
 	defer m.Unlock()
+	config.ReplicationMode = normalizeMode(config.ReplicationMode)
 	// If mode change from 'majority' to 'dr-auto-sync', switch to 'sync_recover'.
 	if m.config.ReplicationMode == modeMajority && config.ReplicationMode == modeDRAutoSync {
 		old := m.config
